@@ -10,11 +10,11 @@ PY = '/venv/bin/python'
 # id: (level, technique, text, note)
 T = {
  'C01': ('exploration', 'lock-step differential trace monitor: instruction hook on the real interpreter vs independent reference interpreter',
-         'Generated well-typed programs (instruction sweeps over boundary pools + randomly scheduled compiled programs) are run by the real interpreter under an execute() hook; every post-instruction stack, the final stack and the FAILWITH value are compared with an independent reference interpreter calibrated on the Octez regression vectors. Held on the programs driven, nothing more.',
+         'Generated well-typed programs (instruction sweeps over boundary pools + randomly scheduled compiled programs) are run by the real interpreter under an execute() hook; every post-instruction stack, the final stack and the FAILWITH value are compared with an independent reference interpreter calibrated on the Octez regression vectors; the 20 mainnet scripts and 82 recorded calls shipped with the repository tests are run the same way through Interpreter.run_code (operation-building instructions adopted from the hook trace), and a quarter of the programs run after a failed cell on the same interpreter. Held on the programs driven, nothing more.',
          'Reference interpreter (rv/model/interp.py) written from the Michelson reference and calibrated against the Octez vectors shipped in the repository tests; CREATE_CONTRACT, views, sapling, chests are outside the generator.'),
  'C02': ('exploration', 'deep runtime-type conformance walker at the instruction hook vs statically derived types',
          'After every hooked instruction each live stack slot is walked structurally and its runtime class prim/args at every depth is compared with the static type derived by the reference type tracker.',
-         'Static types come from the reference interpreter\'s own type tracking; same generator bounds as C01.'),
+         'Static types come from the reference interpreter\'s own type tracking; same generator bounds as C01; every live object that was on the stack is also walked for self-consistency (declared component types vs components held), real contracts included.'),
  'C03': ('exploration', 'comparison monitor + sortedness invariant at set/map construction, pools exhaustive (all pairs, all triples)',
          'COMPARE through the REPL on all ordered pairs of adversarial value pools of every comparable type shape, checked against an independent implementation of the Michelson order and against the total-order laws on all triples; set/map literals and UPDATE sequences checked for order and dedup.',
          'Order model rv/model/order.py from the Michelson specification; P-256 keys differing only in parity byte are held to the order laws only.'),
